@@ -15,23 +15,29 @@ open AcVerif.StreamP AcVerif.StdP
 variable {α : Type} [DecidableEq α]
 
 /-- a read failure at call `k`: what was yielded before is a prefix of the
-fault-free sequence; without a reported error nothing is lost -/
+fault-free sequence; without a reported error nothing is lost
+(any buffer constants with `min < cap`) -/
 theorem C18_read_fault (P : List (List α)) (_hP : P ≠ []) (hne : ∀ p ∈ P, p ≠ [])
     (sk : StartKind) (hsk : supportsAnch sk false) (data : List α) (sched : List Nat)
-    (hs : ∀ x ∈ sched, 1 ≤ x) (spare : Option Nat) (k : Nat) :
+    (hs : ∀ x ∈ sched, 1 ≤ x) (spare : Option Nat) (minFactor defaultCap : Nat)
+    (hcap : (Buffer.new (α := α) (ideal .std P sk false).maxLen spare minFactor defaultCap).min <
+        (Buffer.new (α := α) (ideal .std P sk false).maxLen spare minFactor defaultCap).cap)
+    (k : Nat) :
     ∃ ms ms' err er,
-      streamFind (ideal .std P sk false) { data := data, sched := sched } spare =
+      streamFind (ideal .std P sk false) { data := data, sched := sched } spare
+        minFactor defaultCap =
         .ok (ms, false, 0) ∧
-      streamFind (ideal .std P sk false) { data := data, sched := sched, failAt := some k } spare =
+      streamFind (ideal .std P sk false) { data := data, sched := sched, failAt := some k } spare
+        minFactor defaultCap =
         .ok (ms', err, er) ∧
       ms' <+: ms ∧ er = 0 ∧ (err = false → ms' = ms) := by
   obtain ⟨it, cs, err, hnew, hd, hsp, he, _⟩ :=
-    stream_master P sk hsk hne data sched hs spare none
+    stream_master P sk hsk hne data sched hs spare minFactor defaultCap hcap none
   have herr := he rfl
   subst herr
   obtain ⟨it', cs', err', hnew', hd', hsp', _, _⟩ :=
-    stream_master P sk hsk hne data sched hs spare (some k)
-  have H := hyp_ideal P sk hsk hne data sched hs spare
+    stream_master P sk hsk hne data sched hs spare minFactor defaultCap hcap (some k)
+  have H := hyp_ideal P sk hsk hne data sched hs spare minFactor defaultCap hcap
   have hm := (spec_mats H.FOK hsp (Nat.zero_le _)).2 rfl
   have hm' := spec_mats H.FOK hsp' (Nat.zero_le _)
   refine ⟨chunkMats cs, chunkMats cs', err', 0, ?_, ?_, ?_, rfl, ?_⟩
@@ -41,18 +47,22 @@ theorem C18_read_fault (P : List (List α)) (_hP : P ≠ []) (hne : ∀ p ∈ P,
   · intro h; rw [hm, hm'.2 h]
 
 /-- a writer that fails after `l` bytes: the bytes accepted are a prefix of the
-fault-free output -/
+fault-free output (any buffer constants with `min < cap`) -/
 theorem C18_write_fault (P : List (List α)) (_hP : P ≠ []) (hne : ∀ p ∈ P, p ≠ [])
     (sk : StartKind) (hsk : supportsAnch sk false) (data : List α) (sched : List Nat)
-    (hs : ∀ x ∈ sched, 1 ≤ x) (spare : Option Nat) (repl : Mat → List α) (l : Nat) :
+    (hs : ∀ x ∈ sched, 1 ≤ x) (spare : Option Nat) (minFactor defaultCap : Nat)
+    (hcap : (Buffer.new (α := α) (ideal .std P sk false).maxLen spare minFactor defaultCap).min <
+        (Buffer.new (α := α) (ideal .std P sk false).maxLen spare minFactor defaultCap).cap)
+    (repl : Mat → List α) (l : Nat) :
     ∃ w w' log log' ok',
-      streamReplaceWith (ideal .std P sk false) { data := data, sched := sched } spare {} repl =
+      streamReplaceWith (ideal .std P sk false) { data := data, sched := sched } spare {} repl
+        minFactor defaultCap =
         .ok (w, log, true, 0) ∧
       streamReplaceWith (ideal .std P sk false) { data := data, sched := sched } spare
-        { limit := some l } repl = .ok (w', log', ok', 0) ∧
+        { limit := some l } repl minFactor defaultCap = .ok (w', log', ok', 0) ∧
       w'.out <+: w.out ∧ w'.out.length ≤ l ∧ (ok' = true → w'.out = w.out) := by
   obtain ⟨it, cs, err, hnew, hd, hsp, he, hgo⟩ :=
-    stream_master P sk hsk hne data sched hs spare none
+    stream_master P sk hsk hne data sched hs spare minFactor defaultCap hcap none
   have herr := he rfl
   subst herr
   have h1 := goPure_nolimit repl cs false [] []
@@ -65,6 +75,90 @@ theorem C18_write_fault (P : List (List α)) (_hP : P ≠ []) (hne : ∀ p ∈ P
     rw [this]
   · simp only [streamReplaceWith, hnew, hgo]
 
+/-! ## corollaries: the default constants, any factor `≥ 2`, explicit spare room -/
+
+/-- the default constants (factor 8, 64 KiB) -/
+theorem C18_read_fault_default (P : List (List α)) (_hP : P ≠ []) (hne : ∀ p ∈ P, p ≠ [])
+    (sk : StartKind) (hsk : supportsAnch sk false) (data : List α) (sched : List Nat)
+    (hs : ∀ x ∈ sched, 1 ≤ x) (spare : Option Nat) (k : Nat) :
+    ∃ ms ms' err er,
+      streamFind (ideal .std P sk false) { data := data, sched := sched } spare =
+        .ok (ms, false, 0) ∧
+      streamFind (ideal .std P sk false) { data := data, sched := sched, failAt := some k } spare =
+        .ok (ms', err, er) ∧
+      ms' <+: ms ∧ er = 0 ∧ (err = false → ms' = ms) :=
+  C18_read_fault P _hP hne sk hsk data sched hs spare 8 (64 * 1024) (hcap_default _ spare) k
+
+/-- production-shaped capacity `max (min * minFactor) defaultCap`, any `minFactor ≥ 2` -/
+theorem C18_read_fault_factor (P : List (List α)) (_hP : P ≠ []) (hne : ∀ p ∈ P, p ≠ [])
+    (sk : StartKind) (hsk : supportsAnch sk false) (data : List α) (sched : List Nat)
+    (hs : ∀ x ∈ sched, 1 ≤ x) (minFactor defaultCap : Nat) (hf : 2 ≤ minFactor)
+    (k : Nat) :
+    ∃ ms ms' err er,
+      streamFind (ideal .std P sk false) { data := data, sched := sched } none
+        minFactor defaultCap =
+        .ok (ms, false, 0) ∧
+      streamFind (ideal .std P sk false) { data := data, sched := sched, failAt := some k } none
+        minFactor defaultCap =
+        .ok (ms', err, er) ∧
+      ms' <+: ms ∧ er = 0 ∧ (err = false → ms' = ms) :=
+  C18_read_fault P _hP hne sk hsk data sched hs none minFactor defaultCap
+    (hcap_factor _ minFactor defaultCap hf) k
+
+/-- explicit spare room `min + max 1 sp`, whatever the constants -/
+theorem C18_read_fault_spare (P : List (List α)) (_hP : P ≠ []) (hne : ∀ p ∈ P, p ≠ [])
+    (sk : StartKind) (hsk : supportsAnch sk false) (data : List α) (sched : List Nat)
+    (hs : ∀ x ∈ sched, 1 ≤ x) (sp minFactor defaultCap : Nat) (k : Nat) :
+    ∃ ms ms' err er,
+      streamFind (ideal .std P sk false) { data := data, sched := sched } (some sp)
+        minFactor defaultCap =
+        .ok (ms, false, 0) ∧
+      streamFind (ideal .std P sk false) { data := data, sched := sched, failAt := some k }
+        (some sp) minFactor defaultCap =
+        .ok (ms', err, er) ∧
+      ms' <+: ms ∧ er = 0 ∧ (err = false → ms' = ms) :=
+  C18_read_fault P _hP hne sk hsk data sched hs (some sp) minFactor defaultCap
+    (hcap_spare _ sp minFactor defaultCap) k
+
+theorem C18_write_fault_default (P : List (List α)) (_hP : P ≠ []) (hne : ∀ p ∈ P, p ≠ [])
+    (sk : StartKind) (hsk : supportsAnch sk false) (data : List α) (sched : List Nat)
+    (hs : ∀ x ∈ sched, 1 ≤ x) (spare : Option Nat) (repl : Mat → List α) (l : Nat) :
+    ∃ w w' log log' ok',
+      streamReplaceWith (ideal .std P sk false) { data := data, sched := sched } spare {} repl =
+        .ok (w, log, true, 0) ∧
+      streamReplaceWith (ideal .std P sk false) { data := data, sched := sched } spare
+        { limit := some l } repl = .ok (w', log', ok', 0) ∧
+      w'.out <+: w.out ∧ w'.out.length ≤ l ∧ (ok' = true → w'.out = w.out) :=
+  C18_write_fault P _hP hne sk hsk data sched hs spare 8 (64 * 1024) (hcap_default _ spare) repl l
+
+theorem C18_write_fault_factor (P : List (List α)) (_hP : P ≠ []) (hne : ∀ p ∈ P, p ≠ [])
+    (sk : StartKind) (hsk : supportsAnch sk false) (data : List α) (sched : List Nat)
+    (hs : ∀ x ∈ sched, 1 ≤ x) (minFactor defaultCap : Nat) (hf : 2 ≤ minFactor)
+    (repl : Mat → List α) (l : Nat) :
+    ∃ w w' log log' ok',
+      streamReplaceWith (ideal .std P sk false) { data := data, sched := sched } none {} repl
+        minFactor defaultCap =
+        .ok (w, log, true, 0) ∧
+      streamReplaceWith (ideal .std P sk false) { data := data, sched := sched } none
+        { limit := some l } repl minFactor defaultCap = .ok (w', log', ok', 0) ∧
+      w'.out <+: w.out ∧ w'.out.length ≤ l ∧ (ok' = true → w'.out = w.out) :=
+  C18_write_fault P _hP hne sk hsk data sched hs none minFactor defaultCap
+    (hcap_factor _ minFactor defaultCap hf) repl l
+
+theorem C18_write_fault_spare (P : List (List α)) (_hP : P ≠ []) (hne : ∀ p ∈ P, p ≠ [])
+    (sk : StartKind) (hsk : supportsAnch sk false) (data : List α) (sched : List Nat)
+    (hs : ∀ x ∈ sched, 1 ≤ x) (sp minFactor defaultCap : Nat)
+    (repl : Mat → List α) (l : Nat) :
+    ∃ w w' log log' ok',
+      streamReplaceWith (ideal .std P sk false) { data := data, sched := sched } (some sp) {} repl
+        minFactor defaultCap =
+        .ok (w, log, true, 0) ∧
+      streamReplaceWith (ideal .std P sk false) { data := data, sched := sched } (some sp)
+        { limit := some l } repl minFactor defaultCap = .ok (w', log', ok', 0) ∧
+      w'.out <+: w.out ∧ w'.out.length ≤ l ∧ (ok' = true → w'.out = w.out) :=
+  C18_write_fault P _hP hne sk hsk data sched hs (some sp) minFactor defaultCap
+    (hcap_spare _ sp minFactor defaultCap) repl l
+
 /-! ## non-vacuity: a match split across reads, capacity `min + 1` -/
 
 /-- the hypotheses are satisfiable -/
@@ -75,8 +169,20 @@ example : ∃ ms ms' err er,
       { data := [0, 1, 2, 3, 4, 1, 2, 3], sched := [2, 1, 3, 1], failAt := some 3 } (some 1) =
       .ok (ms', err, er) ∧
     ms' <+: ms ∧ er = 0 ∧ (err = false → ms' = ms) :=
-  C18_read_fault [[1, 2, 3], [3, 4]] (by decide) (by decide) .both (Or.inl rfl)
+  C18_read_fault_default [[1, 2, 3], [3, 4]] (by decide) (by decide) .both (Or.inl rfl)
     [0, 1, 2, 3, 4, 1, 2, 3] [2, 1, 3, 1] (by decide) (some 1) 3
+
+/-- the general theorem's `hcap` is satisfiable with non-default constants
+(factor 2, default capacity 0: a 6-byte buffer for `min = 3`) -/
+example : ∃ ms ms' err er,
+    streamFind (ideal .std [[1, 2, 3], [3, 4]] .both false)
+      { data := [0, 1, 2, 3, 4, 1, 2, 3], sched := [2, 1, 3, 1] } none 2 0 = .ok (ms, false, 0) ∧
+    streamFind (ideal .std [[1, 2, 3], [3, 4]] .both false)
+      { data := [0, 1, 2, 3, 4, 1, 2, 3], sched := [2, 1, 3, 1], failAt := some 3 } none 2 0 =
+      .ok (ms', err, er) ∧
+    ms' <+: ms ∧ er = 0 ∧ (err = false → ms' = ms) :=
+  C18_read_fault [[1, 2, 3], [3, 4]] (by decide) (by decide) .both (Or.inl rfl)
+    [0, 1, 2, 3, 4, 1, 2, 3] [2, 1, 3, 1] (by decide) none 2 0 (by decide) 3
 
 /-- the fourth `read` call fails: the first match (split across the first two
 reads) has been yielded, the error is reported -/
